@@ -13,7 +13,13 @@ Monitors
   provenance-form   (P) Transformation.apply / __matmul__ / inv / __getitem__:
                     certified o certified and certified^-1 are checked and
                     certified again -- every composition the workload or the
-                    library itself performs.
+                    library itself performs.  The table is a WeakKeyDictionary
+                    inside this module (object -> measured residual, origin);
+                    nothing is written on the objects.  The tolerance of a
+                    composition is the first-order bound from the residuals
+                    measured on its operands and their cancellation
+                    |A||B|/|AB|, so long words are judged without a geometrically
+                    growing allowance.
   frame-completion  (P) utils.find_isometry and utils.indefinite_orthogonalize
                     on the Minkowski form: orthonormal rows, one timelike row,
                     nested spans kept, orientation when forced.
